@@ -113,7 +113,10 @@ func genScenario(prop string, rng *rand.Rand) *Scenario {
 	}
 	for k := 0; k < closers; k++ {
 		th := Thread{Name: fmt.Sprintf("C%d", k+1)}
-		th.Ops = append(th.Ops, Op{Kind: "cl", Err: []string{"e1", "e2", "nil"}[rng.Intn(3)]})
+		if (prop == "C06" || prop == "C05" || prop == "C11") && rng.Intn(4) == 0 {
+			th.Ops = append(th.Ops, Op{Kind: "px"}) // the parent (bootstrap) context is cancelled first
+		}
+		th.Ops = append(th.Ops, Op{Kind: "cl", Err: []string{"e1", "e2", "nil", "to"}[rng.Intn(4)]})
 		if prop == "C11" || rng.Intn(3) == 0 {
 			th.Ops = append(th.Ops, genWriteOp(rng, sc.NCtx, true))
 		}
